@@ -3,6 +3,7 @@ package main
 // Evaluation of contract expressions into SMT terms against a symbolic state.
 
 import (
+	"sort"
 	"fmt"
 	"os"
 	"go/constant"
@@ -222,6 +223,22 @@ func (e *Env) lookupType(x *Expr) types.Type {
 		if x.A[0].Op == "id" {
 			if p := e.importByName(x.A[0].S); p != nil {
 				if obj := p.Scope().Lookup(x.S); obj != nil {
+					if tn, ok := obj.(*types.TypeName); ok {
+						return tn.Type()
+					}
+				}
+			}
+			// several loaded packages share the name (the repo's storage/mysql and the driver's
+			// mysql): take the one that declares the type; the import path order makes it deterministic
+			var paths []string
+			for path, p := range e.tr.eng.allPkgs {
+				if p.Types != nil && p.Types.Name() == x.A[0].S {
+					paths = append(paths, path)
+				}
+			}
+			sort.Strings(paths)
+			for _, path := range paths {
+				if obj := e.tr.eng.allPkgs[path].Types.Scope().Lookup(x.S); obj != nil {
 					if tn, ok := obj.(*types.TypeName); ok {
 						return tn.Type()
 					}
@@ -1298,6 +1315,18 @@ func (e *Env) callExpr(x *Expr) Val {
 		mt := rg.X.Type().Underlying().(*types.Map)
 		k := e.coerce(e.eval(x.A[1]), mt.Key())
 		return Val{T: fmt.Sprintf("(select %s %s)", cur, k.T), Ty: boolT}
+	case "frombytes":
+		// frombytes(s, b): the string s was produced by the conversion string(b) on the path to this
+		// point (a relation, asserted where the conversion happens; nothing is assumed about contents)
+		if len(x.A) != 2 {
+			e.fail("frombytes(s, b)")
+		}
+		a, b := e.eval(x.A[0]), e.eval(x.A[1])
+		if tr.smt.sortOf(a.Ty) != "Str" || tr.smt.sortOf(b.Ty) != "Slice" {
+			e.fail("frombytes() needs a string and a byte slice")
+		}
+		tr.smt.declareFun("is_b2s", []string{"Str", "Slice"}, "Bool")
+		return Val{T: fmt.Sprintf("(is_b2s %s %s)", a.T, b.T), Ty: boolT}
 	case "distinct":
 		// distinct(a, b): two reference-like values (pointers, maps, channels, possibly of different
 		// static types) are not the same object
